@@ -55,13 +55,16 @@ def cases(tier, seed):
             c['matrix_sparseness'] = ms
         out.append(c)
 
-    def edges_of(pat, etpl_on=None, delays=None):
+    def edges_of(pat, etpl_on=None, delays=None, etpl_vals=False):
         es = []
         for i, (s, t, w) in enumerate(pat):
             a = {'weight': w}
             if delays and delays[i % len(delays)] is not None:
                 a['delay'] = delays[i % len(delays)]
-            es.append([f'{s}/lin/x', f'{t}/t1/u', 'E1' if (etpl_on is not None and i in etpl_on) else None, a])
+            tpl = 'E1' if (etpl_on is not None and i in etpl_on) else None
+            if tpl and etpl_vals:
+                a['e1/ge'] = 0.5 + 0.375 * i      # per-edge value of the edge operator's parameter
+            es.append([f'{s}/lin/x', f'{t}/t1/u', tpl, a])
         return es
     # one type, recurrent: N=2 full alphabet x sparseness thresholds
     lt2 = ['p0', 'p1']
@@ -93,6 +96,9 @@ def cases(tier, seed):
             continue
         for on in ([0], list(range(len(pat)))):
             add(net(n_lt=2, edges=edges_of(pat, etpl_on=on), etpl=True), 'edge_tpl', 0.1)
+        add(net(n_lt=2, edges=edges_of(pat, etpl_on=list(range(len(pat))), etpl_vals=True), etpl=True), 'edge_tpl_values', 0.1)
+    for pat in list(patterns(lt3, lt3, 3))[10::7]:
+        add(net(n_lt=3, edges=edges_of(pat, etpl_on=list(range(len(pat))), etpl_vals=True), etpl=True), 'edge_tpl_values3', 0.1)
     if tier != 'quick':
         lt4 = ['p0', 'p1', 'p2', 'p3']
         for pat in patterns(lt4, lt4, 3):
